@@ -46,6 +46,8 @@ def concrete(v):
         return int(v[:-4])
     if isinstance(v, str) and v.endswith("#float"):
         return float(v[:-6])
+    if v == "None#NoneType":
+        return None
     return v
 
 
@@ -233,12 +235,20 @@ def perturbations(b, model, rnd):
             o = cp(); o.fields[0].value = str(o.fields[0].value) + "!"; yield "field-value", o
             o = cp(); o.fields[-1].key = o.fields[-1].key.swapcase() + "q"; yield "field-key", o
         o = cp(); o.fields = o.fields + [model.Field("zz", "1")]; yield "fields-add", o
-        yield "start_line", model.Entry(b.entry_type, b.key, copy.deepcopy(b.fields), (b.start_line or 0) + 1, b.raw)
-        yield "raw", model.Entry(b.entry_type, b.key, copy.deepcopy(b.fields), b.start_line, (b.raw or "") + " ")
+        for lab, o in (("start_line", model.Entry(b.entry_type, b.key, copy.deepcopy(b.fields), (b.start_line or 0) + 1, b.raw)),
+                       ("raw", model.Entry(b.entry_type, b.key, copy.deepcopy(b.fields), b.start_line, (b.raw or "") + " "))):
+            yield lab, o
+            o2 = copy.deepcopy(o)
+            o2.parser_metadata.update(copy.deepcopy(b.parser_metadata))     # the same difference between blocks that both carry metadata
+            yield lab + "+metadata", o2
     elif c == "String":
         o = cp(); o.value = b.value + "x"; yield "value", o
-        yield "start_line", model.String(b.key, b.value, (b.start_line or 0) + 1, b.raw)
-        yield "raw", model.String(b.key, b.value, b.start_line, (b.raw or "") + " ")
+        for lab, o in (("start_line", model.String(b.key, b.value, (b.start_line or 0) + 1, b.raw)),
+                       ("raw", model.String(b.key, b.value, b.start_line, (b.raw or "") + " "))):
+            yield lab, o
+            o2 = copy.deepcopy(o)
+            o2.parser_metadata.update(copy.deepcopy(b.parser_metadata))
+            yield lab + "+metadata", o2
     elif c == "Preamble":
         o = cp(); o.value = b.value + "x"; yield "value", o
         yield "start_line", model.Preamble(b.value, (b.start_line or 0) + 1, b.raw)
@@ -303,7 +313,7 @@ def run(chk: core.Check):
     # ---- T3: random histories on parsed entries ----------------------------
     ncases = 60 if chk.tier == "quick" else 600
     pool = ["a", "A", "b", "B", "c", "title", "Title", "year", "ß", "ss", "SS", "ſ", "id", "Id", "entrytype", "EntryType", "iD"]
-    vals = ["1", "2", "x y", "{z}", "", "7#int", "2020#int", "2.5#float"]
+    vals = ["1", "2", "x y", "{z}", "", "7#int", "2020#int", "2.5#float", "None#NoneType", "0#int"]
     cases = []
     for cid in range(ncases):
         nf = rnd.randint(0, 5)
